@@ -24,7 +24,7 @@ ENGINES["diffsim"] = {
 }
 
 ENGINES["tasksim"] = {
-    "serves": ["C16", "C19"],
+    "serves": ["C14", "C16", "C19"],
     "kind": "real goroutines parked at harness-owned blocking points and simhook yields, released one at a time by the seeded scheduler inside a synctest bubble",
     "real_vs_stub": {"real": ["app/ocache (oCache, entry) with verif yield points", "net/streampool (streamPool, stream, ExecPool) with verif yield points", "github.com/cheggaaa/mb queues"],
                      "stub": ["LoadFunc and Object (harness-owned: every load/Close/TryClose is a scheduler-released blocking point; outcomes chosen by the seed)",
@@ -188,6 +188,21 @@ PROPS = {
         "level_text": "Operations and pre-states are sampled from a seed; for each sampled operation the storage boundaries are enumerated completely: one crash image before and after every call and one injected error (single or sticky) at every call, each judged by the all-or-nothing, structural and retry oracles.",
         "level_note": "real storage stack down to SQLite; power-loss semantics not modelled; boundaries = calls through the anystore interfaces",
         "expected_probes": ["image=before", "image=after", "operation-reported-the-error"],
+    },
+    "C14": {
+        "engine": "tasksim",
+        "level": "exploration",
+        "budget": {"quick": 40, "thorough": 600},
+        "rule": "one run = 2-3 real secure services (protocol version 11-14, accepted-version lists, RequireClientAuth, node or client role through a node-configuration stub) and 1-3 concurrent connections between seeded (dialer, listener) pairs, with or without CtxAllowAccountCheck; each end runs HandshakeOutbound/HandshakeInbound over a harness byte pipe with a 30 s deadline on the fake clock. "
+                "The scheduler orders every Read/Write of every handshake goroutine (pooled handshake objects are reused across connections), chooses every chunk size (60% of runs), and in 65% of runs injects network faults into unfinished connections: truncation at any byte, garbage bytes, oversized frame headers, reordered / duplicated / unexpected frames, credentials recorded on a connection between other endpoints, a direction that goes silent forever. "
+                "Oracles: every side returns by its deadline; without faults both sides reach the same verdict and it is success exactly when each version is in the other's accepted list and identity demands match (reference predicate over the configuration, independent of the checkers); on success the context carries the remote peer id and version, and the remote account identity exactly when that side verified; "
+                "with faults a side reports success only if what it consumed is exactly the two authentic frames of this connection, in order and in full (two-generals guard: the other side may legitimately fail), and never when the configuration forbids the handshake. evaluations = connections judged.",
+        "assumptions": COMMON_ASSUMPTIONS + ["libp2p TLS is skipped: the handshake API takes the byte stream and the transport peer id TLS would have authenticated; forged well-formed frames (e.g. an OK ack injected exactly where an ack is expected) are excluded because only the transport's integrity protection rules them out",
+                                             "the protocol-negotiation handshake (proto.go) is not part of the property"],
+        "technique": "deterministic simulation: seeded scheduling of both handshake ends over a simulated byte pipe (chunking, truncation, garbage, oversized, out-of-order, cross-connection replay, silence), fake-clock deadlines; verdict oracle from a reference predicate and authentic-consumption oracle",
+        "level_text": "Seeded exploration of configurations, chunkings, interleavings of concurrent handshakes and network faults over the real secure service; verdicts compared with a reference predicate, success only on authentic in-order input, bounded wait.",
+        "level_note": "secureservice + handshake real; pipe, clock, account/nodeconf/config components are harness-owned; TLS not simulated",
+        "expected_probes": ["clean-handshake-true", "clean-handshake-false", "faulty-handshake"],
     },
     "C16": {
         "engine": "tasksim",
